@@ -105,6 +105,8 @@ def run_unit(target, cfg, tier='quick', findings=()):
         res['wall_s'] = time.time() - t0
         return res
     res['paths'] = len(paths)
+    from . import interp as _interp
+    res['executed'] = sorted(x for x in _interp.EXECUTED if x.startswith('mido'))
     base = '%s[%s]' % (target, res['cfg'])
     res['function'] = contract.target
     for pi, (ctx, (kind, payload)) in enumerate(paths):
